@@ -1,7 +1,8 @@
 """Values of the serializer's faithful domain for recorder-level cases: wire form <-> Python value <-> canonical text.
 
 wire: null | true/false | {"i": "<int>"} | {"f": "<repr>"} | {"s": str} | {"b": hex} | {"l": [..]} | {"t": [..]} |
-      {"set": [..]} | {"d": [[k, v]..]} | {"o": [[k, v]..]} (harness.dyn.Obj with attributes) | {"x": "ExcType"}
+      {"set": [..]} | {"d": [[k, v]..]} | {"o": [[k, v]..]} (harness.dyn.Obj with attributes) | {"x": "ExcType"} |
+      {"dup": w} (a two element list holding the SAME object twice) | {"cyc": [..]} (a list whose last element is itself)
 The canonical text is what the Lean recorder model carries as an opaque atom; it must be injective up to Python
 structural equality on this domain and composable (tuples, the wrapping handler) without knowing the parts.
 """
@@ -36,11 +37,24 @@ def to_py(w):
         return o
     if 'x' in w:
         return dyn.EXC[w['x']]('boom')
+    if 'dup' in w:
+        x = to_py(w['dup'])
+        return [x, x]
+    if 'cyc' in w:
+        l = [to_py(x) for x in w['cyc']]
+        l.append(l)
+        return l
     raise TypeError('bad wire value %r' % (w,))
 
 
-def canon(v):
-    """canonical text of a Python value (also of values decoded back from a recording)"""
+def canon(v, _path=()):
+    """canonical text of a Python value (also of values decoded back from a recording).  Equal values have equal texts; a
+    container that contains itself is written `*<k>` at the back reference, k levels up (sharing without a cycle is not
+    part of the text: Python's == does not see it, and the serializer does not keep it for plain dicts)"""
+    if isinstance(v, (list, dict, dyn.Obj)):
+        if id(v) in _path:
+            return '*%d' % (len(_path) - _path.index(id(v)))
+        _path = _path + (id(v),)
     if v is None:
         return 'None'
     if isinstance(v, bool):
@@ -54,20 +68,41 @@ def canon(v):
     if isinstance(v, bytes):
         return 'b' + v.hex()
     if isinstance(v, list):
-        return '[' + ','.join(canon(x) for x in v) + ']'
+        return '[' + ','.join(canon(x, _path) for x in v) + ']'
     if isinstance(v, tuple):
-        return '(' + ','.join(canon(x) for x in v) + ')'
+        return '(' + ','.join(canon(x, _path) for x in v) + ')'
     if isinstance(v, (set, frozenset)):
-        return 'set{' + ','.join(sorted(canon(x) for x in v)) + '}'
+        return 'set{' + ','.join(sorted(canon(x, _path) for x in v)) + '}'
     if isinstance(v, dict):
-        return '{' + ','.join(json.dumps(k) + ':' + canon(x) for k, x in sorted(v.items(), key=lambda kv: str(kv[0]))) + '}'
+        return '{' + ','.join(json.dumps(k) + ':' + canon(x, _path)
+                              for k, x in sorted(v.items(), key=lambda kv: str(kv[0]))) + '}'
     if isinstance(v, dyn.Obj):
-        return 'Obj' + canon(v.__dict__)
+        return 'Obj' + canon(v.__dict__, _path)
     if isinstance(v, BaseException):
         return 'exc:' + type(v).__name__
     if isinstance(v, type):
         return 'cls:' + v.__name__
     return 'other:' + type(v).__name__
+
+
+def no_objects(j):
+    """the same case/wire JSON with every {"o": ..} value turned into the dict {"d": ..} (used where a value with internal
+    aliasing is generated: an object written before it shifts the serializer's reference numbers, known finding K7)"""
+    if isinstance(j, list):
+        return [no_objects(x) for x in j]
+    if isinstance(j, dict):
+        if set(j) == {'o'}:
+            return {'d': no_objects(j['o'])}
+        return {k: no_objects(x) for k, x in j.items()}
+    return j
+
+
+def aliased_value(rng):
+    inner = {'l': [rand_value(rng, 0) for _ in range(rng.randint(0, 2))]} if rng.random() < 0.6 else \
+        {'d': [[k, rand_value(rng, 0)] for k in rng.sample(['k', 'a'], rng.randint(0, 2))]}
+    if rng.random() < 0.4:
+        return {'dup': inner}
+    return {'cyc': [rand_value(rng, 0) for _ in range(rng.randint(0, 2))]}
 
 
 def canon_wire(w):
